@@ -27,8 +27,10 @@
 //! Reference model: the condition vector itself (valid <=> all true).
 
 use std::collections::{BTreeMap, BTreeSet};
+use std::io;
 use std::str::FromStr;
 use std::sync::Mutex;
+use std::sync::atomic::{AtomicUsize, Ordering};
 use bytes::Bytes;
 use rayon::prelude::*;
 use rpki::ca::idcert::IdCert;
@@ -36,12 +38,15 @@ use rpki::ca::idexchange::{RecipientHandle, SenderHandle};
 use rpki::ca::provisioning::{self, ProvisioningCms, RevocationRequest};
 use rpki::ca::publication::{self, Base64, Publish, PublishDelta, PublicationCms};
 use rpki::ca::sigmsg::SignedMessage;
-use rpki::crypto::PublicKey;
+use rpki::crypto::{PublicKey, PublicKeyFormat, RpkiSignatureAlgorithm, Signature, SignatureAlgorithm, Signer, SigningError};
+use rpki::crypto::signer::KeyError;
+use rpki::crypto::softsigner::{KeyId as SoftKeyId, SoftSigner};
 use rpki::repository::x509::{Time, Validity};
 use rpki_verif::engine::der::{self, Civil, SignedDataParts};
 use rpki_verif::engine::enumerate::permutations;
 use rpki_verif::engine::pki::{self, T0};
-use rpki_verif::engine::signer::{sha256, PoolSigner};
+use rpki_verif::engine::report::verif_dir;
+use rpki_verif::engine::signer::{sha256, Kid, PoolSigner};
 use rpki_verif::{guard, hex, trunc, Ctx};
 
 //------------ keys and instants ------------------------------------------------------
@@ -759,9 +764,721 @@ fn flush_fails(ctx: &Ctx) {
     for (o, w, d) in v { ctx.fail(&o, w, d) }
 }
 
+//============ round 8: the signer as a participant, predecessors, environment, time interactions ====
+
+const MSG_KINDS: [&str; 3] = ["SignedMessage::create", "ProvisioningCms::create", "PublicationCms::create"];
+
+/// Creates a message of the given kind under `key`: (octets, decoder to use, an instant inside its window).
+fn create_message<S: Signer>(kind: u8, key: &S::KeyId, signer: &S, content: &[u8]) -> Result<(Vec<u8>, Via, i64), String> {
+    match kind {
+        0 => {
+            let m = SignedMessage::create(Bytes::copy_from_slice(content), Validity::new(pki::time(T0 - W), pki::time(T0 + W)), key, signer).map_err(|e| e.to_string())?;
+            Ok((m.to_captured().into_bytes().to_vec(), Via::Strict, T0))
+        }
+        1 => {
+            let msg = provisioning::Message::list(SenderHandle::from_str("child").unwrap(), RecipientHandle::from_str("parent").unwrap());
+            let b = ProvisioningCms::create(msg, key, signer).map_err(|e| e.to_string())?.to_bytes().to_vec();
+            let ((nb, _), _) = embedded_windows(&b);
+            Ok((b, Via::Provisioning, nb + 300))
+        }
+        _ => {
+            let b = PublicationCms::create(publication::Message::list_query(), key, signer).map_err(|e| e.to_string())?.to_bytes().to_vec();
+            let ((nb, _), _) = embedded_windows(&b);
+            Ok((b, Via::Publication, nb + 300))
+        }
+    }
+}
+
+/// RSA PKCS#1 v1.5 / SHA-256 verification by aws-lc directly.
+fn verify_raw(pk: &PublicKey, data: &[u8], sig: &[u8]) -> bool {
+    aws_lc_rs::signature::UnparsedPublicKey::new(&aws_lc_rs::signature::RSA_PKCS1_2048_8192_SHA256, pk.bits()).verify(data, sig).is_ok()
+}
+
+//------------ signers used as test doubles ----------------------------------------------------------
+
+/// The real `SoftSigner` for everything that touches its key table; only the
+/// one-off key (which the table never sees) comes from the pool, so that a
+/// message costs three signatures instead of an RSA key generation.
+struct SoftPoolOneOff<'a> { soft: SoftSigner, pool: &'a PoolSigner }
+
+impl Signer for SoftPoolOneOff<'_> {
+    type KeyId = SoftKeyId;
+    type Error = io::Error;
+    fn create_key(&self, algorithm: PublicKeyFormat) -> Result<SoftKeyId, io::Error> { self.soft.create_key(algorithm) }
+    fn get_key_info(&self, key: &SoftKeyId) -> Result<PublicKey, KeyError<io::Error>> { self.soft.get_key_info(key) }
+    fn destroy_key(&self, key: &SoftKeyId) -> Result<(), KeyError<io::Error>> { self.soft.destroy_key(key) }
+    fn sign<Alg: SignatureAlgorithm, D: AsRef<[u8]> + ?Sized>(&self, key: &SoftKeyId, algorithm: Alg, data: &D) -> Result<Signature<Alg>, SigningError<io::Error>> { self.soft.sign(key, algorithm, data) }
+    fn sign_one_off<Alg: SignatureAlgorithm, D: AsRef<[u8]> + ?Sized>(&self, algorithm: Alg, data: &D) -> Result<(Signature<Alg>, PublicKey), io::Error> { self.pool.sign_one_off(algorithm, data) }
+    fn rand(&self, target: &mut [u8]) -> Result<(), io::Error> { self.soft.rand(target) }
+}
+
+#[derive(Clone, Copy, Debug, PartialEq, Eq)]
+enum Hook { Count, Sleep, Fail }
+
+/// The pool signer with something happening in its `at`-th call (counted over get_key_info, sign, sign_one_off, rand).
+struct HookSigner<'a> { inner: &'a PoolSigner, calls: AtomicUsize, at: usize, hook: Hook }
+
+impl<'a> HookSigner<'a> {
+    fn new(inner: &'a PoolSigner, at: usize, hook: Hook) -> Self { HookSigner { inner, calls: AtomicUsize::new(0), at, hook } }
+    fn tick(&self) -> Result<(), io::Error> {
+        let i = self.calls.fetch_add(1, Ordering::SeqCst);
+        if i == self.at {
+            match self.hook {
+                Hook::Count => {}
+                Hook::Sleep => std::thread::sleep(std::time::Duration::from_millis(1100)),
+                Hook::Fail => return Err(io::Error::other("injected signer failure")),
+            }
+        }
+        Ok(())
+    }
+}
+
+impl Signer for HookSigner<'_> {
+    type KeyId = Kid;
+    type Error = io::Error;
+    fn create_key(&self, algorithm: PublicKeyFormat) -> Result<Kid, io::Error> { self.inner.create_key(algorithm) }
+    fn get_key_info(&self, key: &Kid) -> Result<PublicKey, KeyError<io::Error>> { self.tick().map_err(KeyError::Signer)?; self.inner.get_key_info(key) }
+    fn destroy_key(&self, key: &Kid) -> Result<(), KeyError<io::Error>> { self.inner.destroy_key(key) }
+    fn sign<Alg: SignatureAlgorithm, D: AsRef<[u8]> + ?Sized>(&self, key: &Kid, algorithm: Alg, data: &D) -> Result<Signature<Alg>, SigningError<io::Error>> { self.tick().map_err(SigningError::Signer)?; self.inner.sign(key, algorithm, data) }
+    fn sign_one_off<Alg: SignatureAlgorithm, D: AsRef<[u8]> + ?Sized>(&self, algorithm: Alg, data: &D) -> Result<(Signature<Alg>, PublicKey), io::Error> { self.tick()?; self.inner.sign_one_off(algorithm, data) }
+    fn rand(&self, target: &mut [u8]) -> Result<(), io::Error> { self.tick()?; self.inner.rand(target) }
+}
+
+/// Number of signer calls one creation of the given kind makes.
+fn signer_calls(fx: &Fx, kind: u8) -> usize {
+    let h = HookSigner::new(&fx.s, usize::MAX, Hook::Count);
+    let _ = guard(|| create_message(kind, &Kid(K_PEER), &h, &fx.content));
+    h.calls.load(Ordering::SeqCst)
+}
+
+//------------ the signer state machine ----------------------------------------------------------------
+
+#[derive(Clone, Copy, Debug, PartialEq, Eq, PartialOrd, Ord)]
+enum SOp { New, Destroy(usize), Info(usize), Raw(usize), Msg(usize, u8) }
+
+impl SOp {
+    fn show(&self) -> String {
+        match self {
+            SOp::New => "new-key".into(), SOp::Destroy(i) => format!("destroy_key(#{i})"), SOp::Info(i) => format!("get_key_info(#{i})"),
+            SOp::Raw(i) => format!("sign(#{i})"), SOp::Msg(i, k) => format!("{}(#{i})", MSG_KINDS[*k as usize]),
+        }
+    }
+}
+
+/// What a sequence family may contain.
+#[derive(Clone, Copy)]
+struct SeqAlphabet { max_handles: usize, raw: bool, all_kinds: bool }
+
+/// All valid operation sequences of exactly `len` operations on a signer that starts with `start` keys
+/// (every shorter valid sequence is a prefix of one of them, and every step is judged). A handle can only
+/// be named once it has been issued; without `all_kinds` the message kind is (position + handle) mod 3.
+fn signer_leaves(start: usize, len: usize, a: SeqAlphabet) -> Vec<Vec<SOp>> {
+    fn rec(issued: usize, len: usize, a: SeqAlphabet, cur: &mut Vec<SOp>, out: &mut Vec<Vec<SOp>>) {
+        if cur.len() == len { out.push(cur.clone()); return }
+        let pos = cur.len();
+        if issued < a.max_handles { cur.push(SOp::New); rec(issued + 1, len, a, cur, out); cur.pop(); }
+        for i in 0..issued {
+            let mut ops = vec![SOp::Destroy(i), SOp::Info(i)];
+            if a.raw { ops.push(SOp::Raw(i)) }
+            if a.all_kinds { for k in 0..3 { ops.push(SOp::Msg(i, k)) } } else { ops.push(SOp::Msg(i, ((pos + i) % 3) as u8)) }
+            for op in ops { cur.push(op); rec(issued, len, a, cur, out); cur.pop(); }
+        }
+    }
+    let mut out = Vec::new();
+    rec(start, len, a, &mut Vec::new(), &mut out);
+    out
+}
+
+/// The reference model of a signer: what each handle meant when it was issued, and whether it was destroyed since.
+struct Handle<K> { id: K, public: PublicKey, alive: bool }
+
+#[derive(Default)]
+struct SeqOutcome {
+    /// (oracle, index of the failing step or None for the set-up, detail)
+    fail: Option<(&'static str, Option<usize>, String)>,
+    steps: u64,
+    classes: BTreeMap<&'static str, u64>,
+    states: BTreeSet<(usize, u8)>,
+    nontrivial: bool,
+}
+
+type StepResult = Result<&'static str, (&'static str, String)>;
+
+/// Runs one sequence on `signer` against the model. `new_key(ordinal)` makes the next key and says, where it is
+/// known independently, which public key that is. `destroy_effective` is false for the pool signer, whose
+/// `destroy_key` is documented to do nothing.
+fn exec_seq<S: Signer>(signer: &S, new_key: &dyn Fn(usize) -> Result<(S::KeyId, Option<PublicKey>), String>, destroy_effective: bool, start: usize, seq: &[SOp], content: &[u8]) -> SeqOutcome {
+    let mut out = SeqOutcome::default();
+    let mut hs: Vec<Handle<S::KeyId>> = Vec::new();
+    let add_key = |hs: &mut Vec<Handle<S::KeyId>>| -> StepResult {
+        let ord = hs.len();
+        let (id, expected) = new_key(ord).map_err(|e| ("C10.signer.key_info", format!("a new key could not be made: {e}")))?;
+        let got = signer.get_key_info(&id).map_err(|e| ("C10.signer.key_info", format!("get_key_info on the handle just issued (#{ord}) fails: {e}")))?;
+        if let Some(x) = &expected { if *x != got { return Err(("C10.signer.key_info", format!("get_key_info on the handle just issued (#{ord}) returns another key than the one handed in"))) } }
+        if let Some(j) = hs.iter().position(|h| h.public == got) { return Err(("C10.signer.key_info", format!("the handle just issued (#{ord}) names the key of handle #{j}"))) }
+        hs.push(Handle { id, public: got, alive: true });
+        Ok("new-key")
+    };
+    let mask = |hs: &Vec<Handle<S::KeyId>>| hs.iter().enumerate().fold(0u8, |m, (i, h)| if h.alive { m | 1 << i } else { m });
+    for _ in 0..start {
+        match guard(|| add_key(&mut hs)) {
+            Ok(Ok(_)) => {}
+            Ok(Err((o, d))) => { out.fail = Some((o, None, d)); return out }
+            Err(p) => { out.fail = Some(("C10.no_panic", None, p)); return out }
+        }
+    }
+    out.states.insert((hs.len(), mask(&hs)));
+    // which of the recorded keys a message validates under (for the detail text)
+    let validates_under = |hs: &Vec<Handle<S::KeyId>>, bytes: &[u8], when: i64, via: Via| -> Vec<(usize, Verdict)> { hs.iter().enumerate().map(|(j, h)| (j, run(bytes, &h.public, when, via))).collect() };
+    for (pos, op) in seq.iter().enumerate() {
+        let observed = match op { SOp::Info(i) | SOp::Raw(i) | SOp::Msg(i, _) => Some(*i), _ => None };
+        if let Some(i) = observed { if !hs[i].alive || hs.iter().enumerate().any(|(j, h)| j != i && !h.alive) { out.nontrivial = true } }
+        let step = guard(|| -> StepResult {
+            match *op {
+                SOp::New => add_key(&mut hs),
+                SOp::Destroy(i) => {
+                    let r = signer.destroy_key(&hs[i].id);
+                    if hs[i].alive {
+                        r.map_err(|e| ("C10.signer.destroyed", format!("destroy_key on the live handle #{i} fails: {e}")))?;
+                        if destroy_effective { hs[i].alive = false }
+                        Ok("key-destroyed")
+                    } else if r.is_ok() { Err(("C10.signer.destroyed", format!("destroy_key on the already destroyed handle #{i} succeeds"))) } else { Ok("destroyed-handle-refused") }
+                }
+                SOp::Info(i) => match (signer.get_key_info(&hs[i].id), hs[i].alive) {
+                    (Ok(pk), true) => if pk == hs[i].public { Ok("key-info-agrees") } else {
+                        let other = hs.iter().position(|h| h.public == pk);
+                        Err(("C10.signer.key_info", format!("get_key_info(#{i}) no longer returns the key recorded when the handle was issued{}", other.map(|j| format!(", but the key of handle #{j}")).unwrap_or_default())))
+                    },
+                    (Err(e), true) => Err(("C10.signer.key_info", format!("get_key_info on the live handle #{i} fails: {e}"))),
+                    (Ok(pk), false) => Err(("C10.signer.destroyed", format!("get_key_info on the destroyed handle #{i} returns a key{}", hs.iter().position(|h| h.public == pk).map(|j| format!(" (that of handle #{j})")).unwrap_or_default()))),
+                    (Err(_), false) => Ok("destroyed-handle-refused"),
+                },
+                SOp::Raw(i) => {
+                    let data = format!("data signed at step {pos} under handle {i}");
+                    match (signer.sign(&hs[i].id, RpkiSignatureAlgorithm::default(), data.as_bytes()), hs[i].alive) {
+                        (Ok(sig), alive) => {
+                            let under: Vec<usize> = hs.iter().enumerate().filter(|(_, h)| verify_raw(&h.public, data.as_bytes(), sig.value().as_ref())).map(|(j, _)| j).collect();
+                            if !alive { Err(("C10.signer.destroyed", format!("sign under the destroyed handle #{i} succeeds (the signature verifies under the keys recorded for handles {under:?})"))) }
+                            else if under == [i] { Ok("signature-under-named-key-only") }
+                            else { Err(("C10.signer.sign", format!("the signature made under handle #{i} verifies under the keys recorded for handles {under:?}, not under #{i} alone"))) }
+                        }
+                        (Err(e), true) => Err(("C10.signer.sign", format!("sign under the live handle #{i} fails: {e}"))),
+                        (Err(_), false) => Ok("destroyed-handle-refused"),
+                    }
+                }
+                SOp::Msg(i, k) => match (create_message(k, &hs[i].id, signer, content), hs[i].alive) {
+                    (Ok((bytes, via, when)), alive) => {
+                        let vs = validates_under(&hs, &bytes, when, via);
+                        if let Some((_, Verdict::Panic(p))) = vs.iter().find(|(_, v)| matches!(v, Verdict::Panic(_))) { return Err(("C10.no_panic", p.clone())) }
+                        let under: Vec<usize> = vs.iter().filter(|(_, v)| v.accepted()).map(|(j, _)| *j).collect();
+                        if !alive { return Err(("C10.signer.destroyed", format!("a message was created under the destroyed handle #{i} (it validates under the keys recorded for handles {under:?})"))) }
+                        if !under.contains(&i) { return Err(("C10.signer.created.own_key", format!("the message created under handle #{i} does not validate under the public key recorded for that handle when it was issued ({}); it validates under the keys recorded for handles {under:?}", trunc(&vs[i].1.show(), 120)))) }
+                        if under != [i] { return Err(("C10.signer.created.other_key", format!("the message created under handle #{i} validates under the keys recorded for handles {under:?}"))) }
+                        Ok("message-validates-under-named-key-only")
+                    }
+                    (Err(e), true) => Err(("C10.signer.created.own_key", format!("creating a message under the live handle #{i} fails: {e}"))),
+                    (Err(_), false) => Ok("destroyed-handle-refused"),
+                },
+            }
+        });
+        out.steps += 1;
+        match step {
+            Ok(Ok(class)) => { *out.classes.entry(class).or_insert(0) += 1; out.states.insert((hs.len(), mask(&hs))); }
+            Ok(Err((o, d))) => { out.fail = Some((o, Some(pos), d)); return out }
+            Err(p) => { out.fail = Some(("C10.no_panic", Some(pos), p)); return out }
+        }
+    }
+    out
+}
+
+#[derive(Clone, Copy, Debug, PartialEq, Eq, PartialOrd, Ord)]
+enum SignerKind { SoftImported, SoftGenerated, Pool }
+
+impl SignerKind {
+    fn name(self) -> &'static str {
+        match self {
+            SignerKind::SoftImported => "SoftSigner(keys imported with key_from_pem, one-off key from the pool)",
+            SignerKind::SoftGenerated => "SoftSigner(create_key and sign_one_off generating)",
+            SignerKind::Pool => "PoolSigner(harness)",
+        }
+    }
+}
+
+fn space_signer_sequences(ctx: &Ctx, fx: &Fx) {
+    let thorough = ctx.tier.is_thorough();
+    let sp = ctx.space("signer.sequences",
+        "the signer as a stateful participant: explicit-state exploration of operation sequences over {new key, destroy_key(#i), get_key_info(#i), sign(#i) (the trait method, bare data), create a message under #i (SignedMessage::create / ProvisioningCms::create / PublicationCms::create)}, #i = the i-th handle the signer issued, at most 3 handles, every step judged against a reference model (handle -> public key recorded when the handle was issued, + destroyed or not): a message created under a live handle validates under exactly the key recorded for that handle and under no other recorded key (live or destroyed); sign verifies (aws-lc directly) under that key alone; get_key_info returns it; every operation on a destroyed handle fails; a new handle never names an existing key. Three signers: (A) the real rpki::crypto::softsigner::SoftSigner with keys imported through key_from_pem (the model knows the public key independently; the one-off key comes from the pool) started with 0, 1, 2 or 3 keys, all sequences of <= 4 operations; (B) the plain SoftSigner with create_key and sign_one_off generating RSA keys, all sequences of <= 4 operations from the empty signer (thorough: also <= 5 without the bare sign); (C) the harness' PoolSigner (whose destroy_key is a no-op: handles stay live) from 3 keys, <= 3 operations (thorough 4) - a failure here too means the message path, not the signer, is at fault. quick: message kind = (position + handle) mod 3 and no bare sign in (A); thorough: every kind and the bare sign at every step. non-trivial = sequences in which a handle is observed after ANOTHER handle was destroyed, or a destroyed handle is addressed");
+    let pool_p8: Vec<Vec<u8>> = (0..3).map(|i| std::fs::read(format!("{}/keys/rsa-{i}.p8", verif_dir())).unwrap_or_default()).collect();
+    if pool_p8.iter().any(|k| k.is_empty()) { ctx.machinery_error("signer.sequences: cannot read the pool keys"); sp.done(false, "not run"); return }
+    let mut jobs: Vec<(SignerKind, usize, Vec<SOp>)> = Vec::new();
+    let a_alpha = SeqAlphabet { max_handles: 3, raw: thorough, all_kinds: thorough };
+    for start in 0..=3 { for s in signer_leaves(start, 4, a_alpha) { jobs.push((SignerKind::SoftImported, start, s)) } }
+    for s in signer_leaves(0, 4, SeqAlphabet { max_handles: 3, raw: true, all_kinds: false }) { jobs.push((SignerKind::SoftGenerated, 0, s)) }
+    if thorough { for s in signer_leaves(0, 5, SeqAlphabet { max_handles: 3, raw: false, all_kinds: false }) { jobs.push((SignerKind::SoftGenerated, 0, s)) } }
+    for s in signer_leaves(3, if thorough { 4 } else { 3 }, SeqAlphabet { max_handles: 3, raw: true, all_kinds: thorough }) { jobs.push((SignerKind::Pool, 3, s)) }
+    // the key generations are the expensive part: start them first
+    jobs.sort_by_key(|(k, _, _)| match k { SignerKind::SoftGenerated => 0, _ => 1 });
+    let results: Vec<SeqOutcome> = jobs.par_iter().map(|(kind, start, seq)| {
+        match kind {
+            SignerKind::SoftImported => {
+                let signer = SoftPoolOneOff { soft: SoftSigner::new(), pool: &fx.s };
+                exec_seq(&signer, &|ord| signer.soft.key_from_pem(&pool_p8[ord]).map(|id| (id, Some(fx.s.public(ord)))).map_err(|e| e.to_string()), true, *start, seq, &fx.content)
+            }
+            SignerKind::SoftGenerated => {
+                let signer = SoftSigner::new();
+                exec_seq(&signer, &|_| signer.create_key(PublicKeyFormat::Rsa).map(|id| (id, None)).map_err(|e| e.to_string()), true, *start, seq, &fx.content)
+            }
+            SignerKind::Pool => {
+                let signer = PoolSigner::load();
+                exec_seq(&signer, &|ord| signer.create_key(PublicKeyFormat::Rsa).map(|id| (id, Some(fx.s.public(ord)))).map_err(|e| e.to_string()), false, *start, seq, &fx.content)
+            }
+        }
+    }).collect();
+    let mut fails: BTreeSet<(String, String, String)> = BTreeSet::new();
+    let mut per_signer: BTreeMap<&'static str, (u64, u64, u64)> = BTreeMap::new();
+    let mut states: BTreeSet<(usize, u8)> = BTreeSet::new();
+    let mut keygens = 0u64;
+    for ((kind, start, seq), r) in jobs.iter().zip(results.iter()) {
+        sp.evals(r.steps);
+        sp.merge_outcomes(&r.classes);
+        if r.nontrivial { sp.nontrivial(1) }
+        states.extend(r.states.iter().copied());
+        let e = per_signer.entry(kind.name()).or_insert((0, 0, 0));
+        e.0 += 1; e.1 += r.steps;
+        if *kind == SignerKind::SoftGenerated { keygens += seq.iter().filter(|o| matches!(o, SOp::New | SOp::Msg(..))).count() as u64 }
+        if let Some((oracle, at, detail)) = &r.fail {
+            e.2 += 1;
+            let upto = at.map(|a| a + 1).unwrap_or(0);
+            let wit = format!("signer={} started with {start} keys (#0..), then: {}", kind.name(), if upto == 0 { "(set-up)".to_string() } else { seq[..upto].iter().map(|o| o.show()).collect::<Vec<_>>().join(", ") });
+            fails.insert((oracle.to_string(), wit, match at { Some(a) => format!("step {}: {detail}", a + 1), None => detail.clone() }));
+        }
+    }
+    for (o, w, d) in fails { fail(&o, w, d) }
+    sp.set("sequences_steps_failures_per_signer", serde_json::json!(per_signer.iter().map(|(k, (n, s, f))| format!("{k}: {n} sequences, {s} steps, {f} sequences failing")).collect::<Vec<_>>()));
+    sp.set("model_states_reached", serde_json::json!(states.iter().map(|(n, m)| format!("{n} handles, live mask {m:03b}")).collect::<Vec<_>>()));
+    sp.set("rsa_key_generations", serde_json::json!(keygens));
+    sp.sample_str(|| format!("signer={} started with 3 keys, then: destroy_key(#0), SignedMessage::create(#1) -> validates under the key recorded for #1 only", SignerKind::SoftImported.name()));
+    sp.sample_str(|| format!("signer={} started with 0 keys, then: new-key, new-key, destroy_key(#0), get_key_info(#1) -> the key recorded for #1", SignerKind::SoftGenerated.name()));
+    sp.done(true, &format!("{} maximal sequences ({} model states): (A) 4 start states x all sequences of 4 ops, (B) all sequences of {} ops from the empty signer ({} RSA key generations), (C) all sequences of {} ops from 3 keys", jobs.len(), states.len(), if thorough { "4 and 5" } else { "4" }, keygens, if thorough { 4 } else { 3 }));
+}
+
+//------------ subjects and predecessors ---------------------------------------------------------------
+
+enum SubjKind { Validate { bytes: Vec<u8>, key: usize, when: i64, via: Via }, Create(u8) }
+
+/// One representative evaluation; `want` = what the property says about it (None: only compared with itself).
+struct Subject { label: String, kind: SubjKind, want: Option<bool> }
+
+fn observe(fx: &Fx, s: &Subject) -> String {
+    let o = match &s.kind {
+        SubjKind::Validate { bytes, key, when, via } => run(bytes, &fx.s.public(*key), *when, *via).show(),
+        SubjKind::Create(kind) => match guard(|| create_message(*kind, &fx.s.kid(K_PEER), &fx.s, &fx.content)) {
+            Err(p) => p,
+            Ok(Err(e)) => format!("create failed: {e}"),
+            Ok(Ok((b, via, when))) => format!("created; under the signing key: {}; under another key: {}", run(&b, &fx.s.public(K_PEER), when, via).show(), run(&b, &fx.s.public(K_OTHER), when, via).show()),
+        },
+    };
+    o.replace('\n', " ")
+}
+
+fn obs_accepted(s: &Subject, obs: &str) -> bool {
+    match s.kind { SubjKind::Validate { .. } => obs == "validated", SubjKind::Create(_) => obs.starts_with("created; under the signing key: validated; under another key: validation error") }
+}
+
+fn prov_fx(fx: &Fx) -> Fx {
+    let xml = provisioning::Message::list(SenderHandle::from_str("child").unwrap(), RecipientHandle::from_str("parent").unwrap()).to_xml_bytes().to_vec();
+    Fx { s: PoolSigner::load(), content: xml, peer: fx.peer.clone() }
+}
+
+/// Messages that share every identifier with the all-satisfied foreign message but not the keys / the content.
+fn twins(fx: &Fx) -> Vec<(&'static str, Vec<u8>)> {
+    let s = &fx.s;
+    let base = Plan::base();
+    let base_ee = EeSpec { serial: EE_SERIAL.to_vec(), nb: T0 - W, na: T0 + W, subject_key: K_EE, sign_key: K_PEER, ski: None, aki: Some(s.key(K_PEER).ski.to_vec()), basic: Basic::Absent, key_usage_ext: false, issuer: 0, subject: 0 };
+    let base_crl = CrlSpec { this: T0 - W, next: T0 + W, sign_key: K_PEER, revoked: Some(vec![]), aki: Some(s.key(K_PEER).ski.to_vec()), number: Some(42), unknown_ext: false, ext_block: true, ign: CrlIgn::DEFAULT, ee_serial: EE_SERIAL.to_vec() };
+    let mut v = Vec::new();
+    // EE certificate and CRL issued by another key under the peer's key identifier
+    let (mut e, mut c) = (base_ee.clone(), base_crl.clone()); e.sign_key = K_OTHER; c.sign_key = K_OTHER;
+    v.push(("same identifiers, EE certificate and CRL signed by another key", assemble(fx, &base, &ee_cert(s, &e), &crl(s, &c))));
+    // another EE key under the same subject key identifier, sid and serial
+    let mut e = base_ee.clone(); e.subject_key = K_EE2; e.ski = Some(s.key(K_EE).ski.to_vec());
+    let mut p = Plan::base(); p.sig = SigV::OtherKey;
+    v.push(("same identifiers, another EE key", assemble(fx, &p, &ee_cert(s, &e), &crl(s, &base_crl))));
+    // the same EE certificate and CRL around other content
+    let other = Fx { s: PoolSigner::load(), content: { let mut c = fx.content.clone(); c.extend_from_slice(b"<!-- other -->"); c }, peer: fx.peer.clone() };
+    v.push(("same EE certificate and CRL, other content", assemble(&other, &base, &ee_cert(s, &base_ee), &crl(s, &base_crl))));
+    v
+}
+
+fn subjects(fx: &Fx) -> Vec<Subject> {
+    let cache = Cache::new();
+    let mut v: Vec<Subject> = Vec::new();
+    let mut add = |label: String, bytes: Vec<u8>, key: usize, when: i64, via: Via, want: Option<bool>| v.push(Subject { label: format!("{label} key={} when=T0{:+}s via={via:?}", if key == K_PEER { "peer" } else { "other" }, when - T0), kind: SubjKind::Validate { bytes, key, when, via }, want });
+    let b = cache.build(fx, &Plan::base());
+    for via in [Via::Strict, Via::Relaxed, Via::Publication] { add("foreign all-satisfied (3 signed attributes)".into(), b.clone(), K_PEER, T0, via, Some(true)) }
+    add("foreign all-satisfied".into(), b.clone(), K_OTHER, T0, Via::Strict, Some(false));
+    add("foreign all-satisfied".into(), b.clone(), K_PEER, T0 + W + 1, Via::Strict, Some(false));
+    add("foreign all-satisfied".into(), b.clone(), K_PEER, T0 - W - 1, Via::Relaxed, Some(false));
+    let mut long = Plan::base(); long.extras = vec![Extra::Bst, Extra::Unk100, Extra::Unk200]; long.order = [2, 0, 1];
+    for via in [Via::Strict, Via::Relaxed] { add("foreign all-satisfied (6 signed attributes, > 256 octets)".into(), cache.build(fx, &long), K_PEER, T0, via, Some(true)) }
+    let mut p = Plan::base(); p.st_gen = true; p.extras = vec![Extra::Unk1]; p.extras_first = true;
+    add("foreign all-satisfied (GeneralizedTime, 4 signed attributes)".into(), cache.build(fx, &p), K_PEER, T0, Via::Strict, Some(true));
+    let mut p = Plan::base(); p.sized_extra = Some((1000, false));
+    add("foreign all-satisfied (~1100 octets of signed attributes)".into(), cache.build(fx, &p), K_PEER, T0, Via::Strict, Some(true));
+    let mut p = Plan::base(); p.ee = EeV::NoAki; p.crl = CrlV::NoAki;
+    add("foreign all-satisfied (no AKI)".into(), cache.build(fx, &p), K_PEER, T0, Via::Strict, Some(true));
+    add("foreign all-satisfied (no AKI)".into(), cache.build(fx, &p), K_OTHER, T0, Via::Strict, Some(false));
+    for viol in [Viol::D(DigestV::FlipLast), Viol::D(DigestV::Short31), Viol::S(SigV::FlipLastBit), Viol::S(SigV::OverImplicitTag), Viol::E(EeV::SignedByOther), Viol::E(EeV::CaTrue), Viol::E(EeV::Expired),
+                 Viol::C(CrlV::SignedByOther), Viol::C(CrlV::Stale), Viol::C(CrlV::ListsEeMiddle), Viol::P(ProfV::SidOther), Viol::P(ProfV::CrlAkiWrong)] {
+        let mut p = Plan::base(); viol.apply(&mut p);
+        add(format!("foreign violated=[{}]", p.violated().join(" ")), cache.build(fx, &p), K_PEER, T0, Via::Strict, Some(false));
+    }
+    let tw = twins(fx);
+    add(format!("foreign {}", tw[0].0), tw[0].1.clone(), K_PEER, T0, Via::Strict, Some(false));
+    add(format!("foreign {}", tw[0].0), tw[0].1.clone(), K_OTHER, T0, Via::Strict, None);
+    add(format!("foreign {}", tw[1].0), tw[1].1.clone(), K_PEER, T0, Via::Strict, Some(false));
+    add(format!("foreign {}", tw[2].0), tw[2].1.clone(), K_PEER, T0, Via::Strict, Some(true));
+    add("foreign all-satisfied cut in the middle".into(), b[..b.len() / 2].to_vec(), K_PEER, T0, Via::Strict, Some(false));
+    add("foreign all-satisfied without its last octet".into(), b[..b.len() - 1].to_vec(), K_PEER, T0, Via::Relaxed, Some(false));
+    let pfx = prov_fx(fx);
+    let pb = Cache::new().build(&pfx, &Plan::base());
+    add("foreign provisioning message, all-satisfied".into(), pb.clone(), K_PEER, T0, Via::Provisioning, Some(true));
+    add("foreign provisioning message, all-satisfied".into(), pb, K_OTHER, T0, Via::Provisioning, Some(false));
+    if let Ok(Ok((lib, _, _))) = guard(|| create_message(0, &fx.s.kid(K_PEER), &fx.s, &fx.content)) {
+        add("library-created (SignedMessage::create, T0+-300s)".into(), lib.clone(), K_PEER, T0, Via::Strict, Some(true));
+        add("library-created (SignedMessage::create, T0+-300s)".into(), lib.clone(), K_OTHER, T0, Via::Relaxed, Some(false));
+        add("library-created (SignedMessage::create, T0+-300s)".into(), lib, K_PEER, T0 + W + 1, Via::Publication, Some(false));
+    }
+    for k in 0..3u8 { v.push(Subject { label: format!("{} then validate", MSG_KINDS[k as usize]), kind: SubjKind::Create(k), want: Some(true) }) }
+    v
+}
+
+/// Runs every job on an OS thread of its own (32 at a time).
+fn on_fresh_threads<'a, T: Send>(jobs: Vec<Box<dyn FnOnce() -> T + Send + 'a>>) -> Vec<Result<T, String>> {
+    let mut out = Vec::new();
+    let mut it = jobs.into_iter().peekable();
+    while it.peek().is_some() {
+        let chunk: Vec<_> = it.by_ref().take(32).collect();
+        std::thread::scope(|sc| {
+            let hs: Vec<_> = chunk.into_iter().map(|j| sc.spawn(move || guard(j))).collect();
+            for h in hs { out.push(h.join().unwrap_or_else(|_| Err("the thread panicked outside the guard".into()))) }
+        });
+    }
+    out
+}
+
+struct Pred<'a> { label: String, family: &'static str, run: Box<dyn Fn() -> String + Send + Sync + 'a> }
+
+fn predecessors<'a>(fx: &'a Fx, subj: &'a [Subject]) -> Vec<Pred<'a>> {
+    let cache = Cache::new();
+    let mut v: Vec<Pred<'a>> = Vec::new();
+    for s in subj {
+        v.push(Pred { label: format!("subject: {}", s.label), family: "after a subject", run: Box::new(move || observe(fx, s)) });
+    }
+    let mut val = |label: String, family: &'static str, bytes: Vec<u8>, key: usize, when: i64, via: Via| {
+        v.push(Pred { label: format!("{label} key={} when=T0{:+}s via={via:?}", if key == K_PEER { "peer" } else { "other" }, when - T0), family, run: Box::new(move || run(&bytes, &fx.s.public(key), when, via).show()) });
+    };
+    // every violation, at its own stage, short and long signed attributes
+    let ex_menu: Vec<Vec<Extra>> = vec![vec![], vec![Extra::Bst, Extra::Unk100, Extra::Unk200]];
+    for viol in all_violations() { for ex in &ex_menu { for via in [Via::Strict, Via::Relaxed] {
+        if matches!(viol, Viol::S(SigV::OverMandatoryOnly)) && ex.is_empty() { continue }
+        let mut p = Plan::base(); p.extras = ex.clone(); viol.apply(&mut p);
+        let family = match viol {
+            Viol::D(_) => "after a digest mismatch", Viol::S(_) => "after a signature failure", Viol::E(_) => "after an EE certificate failure",
+            Viol::C(CrlV::SignedByOther) | Viol::C(CrlV::Stale) | Viol::C(CrlV::Future) => "after a CRL failure", Viol::C(_) => "after a revoked EE certificate", Viol::P(_) => "after a profile violation",
+        };
+        val(format!("foreign extras={:?} violated=[{}]", p.extras, p.violated().join(" ")), family, cache.build(fx, &p), K_PEER, T0, via);
+    }}}
+    // signed attributes of many sizes: accepted, with a failing signature, with a wrong digest
+    for n in [0usize, 1, 20, 30, 100, 150, 160, 900, 5000, 65_400] { for (what, family) in [(0u8, "after an accepted message"), (1, "after a signature failure"), (2, "after a digest mismatch")] {
+        let mut p = Plan::base(); p.sized_extra = Some((n, false));
+        match what { 1 => p.sig = SigV::FlipLastBit, 2 => p.digest = DigestV::FlipLast, _ => {} }
+        let len = der::cat(&plan_attrs(fx, &p).0).len();
+        val(format!("foreign signed attributes of {len} octets violated=[{}]", p.violated().join(" ")), family, cache.build(fx, &p), K_PEER, T0, Via::Strict);
+    }}
+    // decode errors after every prefix that ends at a field boundary of the outer layers
+    let mut long = Plan::base(); long.extras = vec![Extra::Bst, Extra::Unk100, Extra::Unk200];
+    for (name, bytes) in [("3 signed attributes", cache.build(fx, &Plan::base())), ("6 signed attributes", cache.build(fx, &long))] {
+        let mut cuts: BTreeSet<usize> = BTreeSet::new();
+        if let Some(root) = der::parse_one(&bytes, false) {
+            let mut nodes = Vec::new(); root.walk(&mut Vec::new(), &mut nodes);
+            for (path, n) in nodes { if path.len() <= 5 && n.start > 0 { cuts.insert(n.start); cuts.insert(n.start + n.hdr); } }
+        }
+        cuts.insert(bytes.len() - 1);
+        for c in cuts { for via in [Via::Strict, Via::Relaxed] { if c < bytes.len() { val(format!("foreign all-satisfied ({name}) cut after {c} of {} octets", bytes.len()), "after a decode error", bytes[..c].to_vec(), K_PEER, T0, via) } } }
+    }
+    // same identifiers, other keys / other content
+    for (name, bytes) in twins(fx) { for key in [K_PEER, K_OTHER] { val(format!("foreign {name}"), "after the same identifiers with other keys or content", bytes.clone(), key, T0, Via::Strict) } }
+    // creation that fails in each of its signer calls
+    for kind in 0..3u8 { for at in 0..signer_calls(fx, kind) {
+        v.push(Pred { label: format!("{} with a signer failing in its call #{at}", MSG_KINDS[kind as usize]), family: "after a failing creation",
+            run: Box::new(move || { let h = HookSigner::new(&fx.s, at, Hook::Fail); match guard(|| create_message(kind, &Kid(K_PEER), &h, &fx.content)) { Ok(Ok(_)) => "created".into(), Ok(Err(e)) => format!("create failed: {e}"), Err(p) => p } }) });
+    }}
+    // a large created message
+    v.push(Pred { label: "SignedMessage::create of 100000 octets then validate".into(), family: "after an accepted message", run: Box::new(move || {
+        let big: Vec<u8> = (0..100_000).map(|i| b"<msg/>\n"[i % 7]).collect();
+        match guard(|| create_message(0, &Kid(K_PEER), &fx.s, &big)) { Ok(Ok((b, via, when))) => run(&b, &fx.peer, when, via).show(), Ok(Err(e)) => format!("create failed: {e}"), Err(p) => p }
+    }) });
+    v
+}
+
+fn space_history_predecessors(ctx: &Ctx, fx: &Fx, subj: &[Subject]) {
+    let thorough = ctx.tier.is_thorough();
+    let sp = ctx.space("history.predecessors",
+        "what happened before on the same thread: subjects = representative evaluations of every oracle family (foreign messages accepted with 3 / 4 / 6 / long signed attributes through every decoder, under another key, outside the window, one violation of every condition, messages sharing all identifiers with an accepted one but not the keys / the content, truncated octets, provisioning messages, a library-created message, the three create functions followed by validation). Predecessors = every subject; every violation (digest 4, signature 4, EE 4, CRL 7, profile 6) with short and long signed attributes, strict and relaxed, i.e. a failure at every distinct stage (decode, digest, signature, EE certificate, CRL, revocation); messages with 10 sizes of signed attributes from ~100 to ~65500 octets accepted / failing at the signature / at the digest; the accepted messages cut at every field boundary of the outer five layers (decode errors after every prefix); the same-identifier twins under both keys; the create functions with a signer failing in each of its calls; a 100000-octet created message. For every predecessor, on a NEW OS thread: the predecessor, then every subject, then every subject in reverse order; each observation (full verdict text) must equal the one the subject gives as the first thing on a thread of its own, and that one must be what the property says. thorough: all ordered pairs of predecessors. non-trivial = predecessor sequences");
+    let preds = predecessors(fx, subj);
+    // baseline: every subject first thing on its own thread
+    let base: Vec<String> = on_fresh_threads(subj.iter().map(|s| Box::new(move || observe(fx, s)) as Box<dyn FnOnce() -> String + Send>).collect())
+        .into_iter().map(|r| r.unwrap_or_else(|p| p)).collect();
+    for (s, o) in subj.iter().zip(base.iter()) {
+        sp.eval(); sp.outcome(if obs_accepted(s, o) { "subject accepted" } else { "subject rejected" });
+        if o.starts_with("panic") { fail("C10.no_panic", format!("subject alone on a new thread: {}", s.label), o.clone()) }
+        if let Some(w) = s.want { if w != obs_accepted(s, o) { fail("C10.history.fresh", format!("subject alone on a new thread: {}", s.label), format!("the property says {}, observed: {}", if w { "accepted" } else { "rejected" }, trunc(o, 200))) } }
+    }
+    let mut seqs: Vec<Vec<usize>> = (0..preds.len()).map(|i| vec![i]).collect();
+    if thorough { for a in 0..preds.len() { for b in 0..preds.len() { seqs.push(vec![a, b]) } } }
+    let preds_ref = &preds;
+    let jobs: Vec<Box<dyn FnOnce() -> (Vec<String>, Vec<String>, Vec<String>) + Send>> = seqs.iter().map(|sq| {
+        let sq = sq.clone();
+        Box::new(move || {
+            let own: Vec<String> = sq.iter().map(|&i| (preds_ref[i].run)()).collect();
+            let fwd: Vec<String> = subj.iter().map(|s| observe(fx, s)).collect();
+            let rev: Vec<String> = subj.iter().rev().map(|s| observe(fx, s)).collect();
+            (own, fwd, rev)
+        }) as Box<dyn FnOnce() -> (Vec<String>, Vec<String>, Vec<String>) + Send>
+    }).collect();
+    let results = on_fresh_threads(jobs);
+    let mut stages: BTreeSet<String> = BTreeSet::new();
+    for (sq, r) in seqs.iter().zip(results.iter()) {
+        let wit = || format!("new thread, first: {}", sq.iter().map(|&i| preds[i].label.clone()).collect::<Vec<_>>().join("; then: "));
+        sp.nontrivial(1); sp.outcome(preds[*sq.last().unwrap()].family);
+        match r {
+            Err(p) => fail("C10.no_panic", wit(), p.clone()),
+            Ok((own, fwd, rev)) => {
+                sp.evals((own.len() + fwd.len() + rev.len()) as u64);
+                for o in own { stages.insert(format!("{}: {}", preds[*sq.last().unwrap()].family, trunc(o, 70))); }
+                let n = subj.len();
+                for i in 0..n {
+                    for (order, got) in [("in order", &fwd[i]), ("in reverse order", &rev[n - 1 - i])] {
+                        if *got != base[i] {
+                            fail("C10.history.independent", format!("{}; then the subjects {order}: {}", wit(), subj[i].label), format!("observed `{}`, alone on a new thread the subject gives `{}`", trunc(got, 160), trunc(&base[i], 160)));
+                        }
+                    }
+                }
+            }
+        }
+    }
+    sp.set("subjects", serde_json::json!(subj.iter().map(|s| s.label.clone()).collect::<Vec<_>>()));
+    sp.set("predecessors", serde_json::json!(preds.len()));
+    sp.set("distinct_predecessor_outcomes", serde_json::json!(stages));
+    sp.sample_str(|| format!("new thread, first: {}; then {} subjects in order and in reverse: all as on a thread of their own", preds[preds.len() / 2].label, subj.len()));
+    sp.done(true, &format!("{} predecessor sequences ({} predecessors{}) x {} subjects x 2 orders", seqs.len(), preds.len(), if thorough { ", singly and all ordered pairs" } else { "" }, subj.len()));
+}
+
+//------------ environment ---------------------------------------------------------------------------------
+
+fn sys_now() -> f64 { std::time::SystemTime::now().duration_since(std::time::UNIX_EPOCH).map(|d| d.as_secs_f64()).unwrap_or(0.0) }
+
+/// Everything whose result could depend on the time zone of the process, one line each.
+fn env_lines(fx: &Fx, subj: &[Subject]) -> Vec<String> {
+    let mut v: Vec<String> = subj.iter().map(|s| format!("{} -> {}", s.label, observe(fx, s))).collect();
+    let s = &fx.s;
+    // validity handed to SignedMessage::create, read back with the harness' own reader, over the UTCTime/GeneralizedTime switches
+    let dom: Vec<i64> = vec![-631_152_001, -631_152_000, 0, T0, T0 + 600, 2_524_607_999, 2_524_608_000, 253_402_300_799];
+    for (i, &nb) in dom.iter().enumerate() { for &na in &dom[i..] {
+        let r = guard(|| SignedMessage::create(Bytes::from_static(b"<msg/>"), Validity::new(pki::time(nb), pki::time(na)), &s.kid(K_PEER), s).map(|m| embedded_windows(&m.to_captured().into_bytes())));
+        v.push(format!("SignedMessage::create window=[{nb},{na}] -> {}", match r { Ok(Ok(w)) => format!("EE certificate {:?}, CRL {:?}", w.0, w.1), Ok(Err(e)) => format!("create failed: {e}"), Err(p) => p }));
+    }}
+    // the wall-clock creators: window relative to the system clock (read through std, not through the library)
+    for kind in 1..3u8 {
+        let before = sys_now();
+        let r = guard(|| create_message(kind, &s.kid(K_PEER), s, &fx.content).map(|(b, via, _)| {
+            let after = sys_now();
+            let ((nb, na), crl_w) = embedded_windows(&b);
+            let decoded = match via { Via::Provisioning => ProvisioningCms::decode(&b).map(|m| m.validate(&fx.peer).is_ok()).unwrap_or(false), _ => PublicationCms::decode(&b).map(|m| m.validate(&fx.peer).is_ok()).unwrap_or(false) };
+            format!("notBefore is five minutes before the system clock: {}; window spans ten minutes: {}; CRL window equals it: {}; validate() now: {}",
+                (nb as f64) >= before - 302.0 && (nb as f64) <= after - 299.0, (600..=601).contains(&(na - nb)), crl_w == (nb, na), decoded)
+        }));
+        v.push(format!("wall-clock creator {} -> {}", MSG_KINDS[kind as usize], match r { Ok(Ok(t)) => t, Ok(Err(e)) => format!("create failed: {e}"), Err(p) => p }));
+    }
+    let t = Time::now().timestamp() as f64;
+    v.push(format!("Time::now() is the system clock: {}", (t - sys_now()).abs() <= 2.0));
+    v.iter().map(|l| l.replace('\n', " ")).collect()
+}
+
+const ENV_CHILD_ARG: &str = "--c10-environment-child";
+
+fn env_child() -> ! {
+    rpki_verif::engine::report::install_quiet_panic_hook();
+    let s = PoolSigner::load();
+    let peer = s.public(K_PEER);
+    let fx = Fx { content: publication::Message::list_query().to_xml_bytes().to_vec(), peer, s };
+    let subj = subjects(&fx);
+    use std::io::Write;
+    let mut out = std::io::stdout().lock();
+    for l in env_lines(&fx, &subj) { let _ = writeln!(out, "ENV {l}"); }
+    let _ = out.flush();
+    std::process::exit(0)
+}
+
+fn space_environment(ctx: &Ctx, fx: &Fx, subj: &[Subject]) {
+    let sp = ctx.space("environment",
+        "(a) time zone: the subject set, the windows SignedMessage::create writes for all 36 validity windows over the UTCTime/GeneralizedTime switch instants (read back with the harness' own reader) and the wall-clock creators (notBefore five minutes before the system clock, ten-minute window, validate() accepts) evaluated in child processes of this binary started with TZ=UTC0, TZ=XXX+11 (west) and TZ=YYY-14 (east): every line equals the line of this process. (b) the wall clock read again: on one thread every clock-reading variant (SignedMessage / PublicationCms / ProvisioningCms validate, IdCert validate_ee / validate_ta) is called once, then after a 1.2 s pause on objects whose window starts at the then-current second (must be accepted, and equal validate_at(Time::now())) and whose window ended one second after the first call (must be rejected). (c) slow signer: the three create functions with a signer sleeping 1.1 s - across a second boundary - in each of its calls: EE and CRL windows coincide, the message validates at both bounds and in the middle of its window and with validate() right away, not under another key. (b) and (c) run on dedicated threads in parallel. non-trivial = comparisons under a non-UTC zone, after the pause, with a sleeping signer");
+    let s = &fx.s;
+    let exe = std::env::current_exe();
+    // (a) children first: they run while the threads below sleep
+    let zones = ["UTC0", "XXX+11", "YYY-14"];
+    let children: Vec<(&str, Option<std::process::Child>)> = zones.iter().map(|z| (*z, exe.as_ref().ok().and_then(|e| std::process::Command::new(e).arg(ENV_CHILD_ARG).env("TZ", z).stdout(std::process::Stdio::piped()).stderr(std::process::Stdio::null()).spawn().ok()))).collect();
+    let pfx = prov_fx(fx);
+    let base = Plan::base();
+    let (ps_pub, ps_prov) = (presign(fx, &base), presign(&pfx, &base));
+    let pfx = &pfx;
+    // objects for a window: (strict message, publication message, provisioning message, EE certificate, TA certificate)
+    let objects = |nb: i64, na: i64| -> (Vec<u8>, Vec<u8>, Vec<u8>, Vec<u8>) {
+        let ee = ee_cert(s, &EeSpec { serial: EE_SERIAL.to_vec(), nb, na, subject_key: K_EE, sign_key: K_PEER, ski: None, aki: Some(s.key(K_PEER).ski.to_vec()), basic: Basic::Absent, key_usage_ext: false, issuer: 0, subject: 0 });
+        let c = crl(s, &CrlSpec { this: nb, next: na, sign_key: K_PEER, revoked: Some(vec![]), aki: Some(s.key(K_PEER).ski.to_vec()), number: Some(5), unknown_ext: false, ext_block: true, ign: CrlIgn::DEFAULT, ee_serial: EE_SERIAL.to_vec() });
+        let ta = IdCert::new_ta(Validity::new(pki::time(nb), pki::time(na)), &s.kid(K_PEER), s).map(|c| c.to_bytes().to_vec()).unwrap_or_default();
+        (wrap(fx, &base, &ps_pub, false, &ee, &c), wrap(pfx, &base, &ps_prov, false, &ee, &c), ee, ta)
+    };
+    // the clock-reading variants of one window's objects: (route, validate() ok, validate_at(Time::now()) ok)
+    let wall = |o: &(Vec<u8>, Vec<u8>, Vec<u8>, Vec<u8>)| -> Vec<(&'static str, Result<(bool, bool), String>)> {
+        let key = &fx.peer;
+        vec![
+            ("SignedMessage::validate", guard(|| SignedMessage::decode(Bytes::copy_from_slice(&o.0), true).map(|m| (m.validate(key).is_ok(), m.validate_at(key, Time::now()).is_ok())).map_err(|e| e.to_string())).and_then(|x| x)),
+            ("PublicationCms::validate", guard(|| PublicationCms::decode(&o.0).map(|m| (m.validate(key).is_ok(), m.validate_at(key, Time::now()).is_ok())).map_err(|e| e.to_string())).and_then(|x| x)),
+            ("ProvisioningCms::validate", guard(|| ProvisioningCms::decode(&o.1).map(|m| (m.validate(key).is_ok(), m.validate_at(key, Time::now()).is_ok())).map_err(|e| e.to_string())).and_then(|x| x)),
+            ("IdCert::validate_ee", guard(|| IdCert::decode(Bytes::copy_from_slice(&o.2)).map(|c| (c.validate_ee(key).is_ok(), c.validate_ee_at(key, Time::now()).is_ok())).map_err(|e| e.to_string())).and_then(|x| x)),
+            ("IdCert::validate_ta", guard(|| IdCert::decode(Bytes::copy_from_slice(&o.3)).map(|c| (c.validate_ta().is_ok(), c.validate_ta_at(Time::now()).is_ok())).map_err(|e| e.to_string())).and_then(|x| x)),
+        ]
+    };
+    // slow-signer plan
+    let slow: Vec<(u8, usize)> = (0..3u8).flat_map(|k| (0..signer_calls(fx, k)).map(move |at| (k, at))).collect();
+    type ClockRows = Vec<(String, &'static str, Result<(bool, bool), String>, bool)>;
+    let (clock_rows, slow_rows): (Result<ClockRows, String>, Vec<Result<Vec<String>, String>>) = std::thread::scope(|sc| {
+        let clock = sc.spawn(|| guard(|| -> Result<ClockRows, String> {
+            let mut rows: ClockRows = Vec::new();
+            let t1 = sys_now();
+            let warm = objects(t1 as i64 - 3600, t1 as i64 + 3600);
+            for (route, r) in wall(&warm) { rows.push(("first call, window of two hours around the system clock".into(), route, r, true)) }
+            let t1 = sys_now();
+            let ending = objects(t1 as i64 - 600, t1 as i64 + 1);
+            std::thread::sleep(std::time::Duration::from_millis(1200));
+            let t2 = sys_now();
+            if t2 - t1 < 1.15 { return Err(format!("the system clock advanced {:.3} s during a 1.2 s sleep", t2 - t1)) }
+            let starting = objects(t2 as i64, t2 as i64 + 600);
+            for (route, r) in wall(&starting) { rows.push(("after a 1.2 s pause, window starting at the current second".into(), route, r, true)) }
+            for (route, r) in wall(&ending) { rows.push(("after a 1.2 s pause, window that ended one second after the first call".into(), route, r, false)) }
+            Ok(rows)
+        }).and_then(|x| x));
+        let slow_h: Vec<_> = slow.iter().map(|&(kind, at)| sc.spawn(move || guard(|| -> Vec<String> {
+            let h = HookSigner::new(s, at, Hook::Sleep);
+            let mut bad = Vec::new();
+            let (b, via, mid) = match create_message(kind, &Kid(K_PEER), &h, &fx.content) { Ok(x) => x, Err(e) => return vec![format!("create failed: {e}")] };
+            let ((nb, na), crl_w) = embedded_windows(&b);
+            if crl_w != (nb, na) { bad.push(format!("EE window [{nb},{na}] but CRL window [{},{}]", crl_w.0, crl_w.1)) }
+            if kind == 0 && (nb, na) != (T0 - W, T0 + W) { bad.push(format!("window [{nb},{na}] is not the validity given")) }
+            if kind != 0 && !(600..=601).contains(&(na - nb)) { bad.push(format!("window of {} s", na - nb)) }
+            for (t, want) in [(nb - 1, false), (nb, true), (mid, true), (na, true), (na + 1, false)] {
+                let v = run(&b, &fx.peer, t, via);
+                if v.accepted() != want { bad.push(format!("at notBefore{:+}s (EE window [{nb},{na}]): {}", t - nb, v.show())) }
+            }
+            if run(&b, &s.public(K_OTHER), mid, via).accepted() { bad.push("validates under another key".into()) }
+            if kind != 0 {
+                let now_ok = match via { Via::Provisioning => ProvisioningCms::decode(&b).map(|m| m.validate(&fx.peer).is_ok()).unwrap_or(false), _ => PublicationCms::decode(&b).map(|m| m.validate(&fx.peer).is_ok()).unwrap_or(false) };
+                if !now_ok { bad.push("validate() right after creation rejects".into()) }
+            }
+            bad
+        }))).collect();
+        (clock.join().unwrap_or_else(|_| Err("thread panicked".into())), slow_h.into_iter().map(|h| h.join().unwrap_or_else(|_| Err("thread panicked".into()))).collect())
+    });
+    // (a)
+    let here = env_lines(fx, subj);
+    for (z, child) in children {
+        let Some(child) = child else { ctx.machinery_error(format!("environment: cannot start the child process for TZ={z}")); continue };
+        let out = match child.wait_with_output() { Ok(o) => o, Err(e) => { ctx.machinery_error(format!("environment: child for TZ={z}: {e}")); continue } };
+        let there: Vec<String> = String::from_utf8_lossy(&out.stdout).lines().filter_map(|l| l.strip_prefix("ENV ").map(|x| x.to_string())).collect();
+        if !out.status.success() || there.len() != here.len() { fail("C10.environment.tz", format!("TZ={z}"), format!("the child process ended with {:?} and printed {} of {} lines", out.status.code(), there.len(), here.len())); continue }
+        for (a, b) in there.iter().zip(here.iter()) {
+            sp.eval(); sp.outcome("time zone"); if z != "UTC0" { sp.nontrivial(1) }
+            if a != b { fail("C10.environment.tz", format!("TZ={z} {}", b.split(" -> ").next().unwrap_or("")), format!("with TZ={z}: `{}`; in this process: `{}`", trunc(a.split(" -> ").nth(1).unwrap_or(a), 160), trunc(b.split(" -> ").nth(1).unwrap_or(b), 160))) }
+        }
+    }
+    // the wall-clock lines must also be what the property says, not only equal
+    for l in &here { if (l.starts_with("wall-clock creator") || l.starts_with("Time::now()")) && l.contains("false") { fail("C10.environment.clock", l.split(" -> ").next().unwrap_or("").to_string(), l.clone()) } }
+    // (b)
+    match clock_rows {
+        Err(e) => if e.starts_with("panic") { fail("C10.no_panic", "environment: wall clock read again", e) } else { ctx.assume(&format!("environment (b) skipped: {e}")) },
+        Ok(rows) => for (what, route, r, want) in rows {
+            sp.eval(); sp.nontrivial(1); sp.outcome(if want { "wall clock: accepted" } else { "wall clock: rejected" });
+            let wit = format!("{route} {what}");
+            match r {
+                Err(e) => fail(if e.starts_with("panic") { "C10.no_panic" } else { "C10.environment.clock" }, wit, e),
+                Ok((w, a)) => {
+                    if w != a { fail("C10.environment.clock", wit.clone(), format!("the wall-clock variant says ok={w}, the _at variant with Time::now() says ok={a}")) }
+                    if w != want { fail("C10.environment.clock", wit, format!("the wall-clock variant says ok={w}; the window {} the current time", if want { "contains" } else { "ended before" })) }
+                }
+            }
+        }
+    }
+    // (c)
+    for (&(kind, at), r) in slow.iter().zip(slow_rows.iter()) {
+        sp.eval(); sp.nontrivial(1); sp.outcome("slow signer");
+        let wit = format!("{} with a signer sleeping 1.1 s in its call #{at}", MSG_KINDS[kind as usize]);
+        match r { Err(p) => fail("C10.no_panic", wit, p.clone()), Ok(bad) => for b in bad { fail("C10.environment.slow_signer", wit.clone(), b.clone()) } }
+    }
+    sp.set("lines_per_zone", serde_json::json!(here.len()));
+    sp.set("slow_signer_runs", serde_json::json!(slow.iter().map(|(k, at)| format!("{} call #{at}", MSG_KINDS[*k as usize])).collect::<Vec<_>>()));
+    sp.sample_str(|| format!("TZ=YYY-14: {}", here[here.len() - 4]));
+    sp.done(true, &format!("3 time zones x {} lines; 5 clock-reading variants x 3 windows around a 1.2 s pause; {} slow-signer runs", here.len(), slow.len()));
+}
+
+//------------ time interactions ---------------------------------------------------------------------------------
+
+fn space_time_interactions(ctx: &Ctx, fx: &Fx) {
+    let thorough = ctx.tier.is_thorough();
+    let sp = ctx.space("interactions.time",
+        "six instants chosen independently from one domain (quick {T0-600, -300, 0, +300, +600}, thorough also T0-1 and T0+1): EE notBefore x EE notAfter x CRL thisUpdate x CRL nextUpdate x signing-time (alone, and with a binary-signing-time of the same value) x evaluation instant, inverted and empty windows included, strict and relaxed decoding. Model: validates <=> notBefore <= t <= notAfter and thisUpdate <= t <= nextUpdate; the signing time has no say. non-trivial = evaluations in which the signing time lies outside the EE window or the two windows differ");
+    let s = &fx.s;
+    let dom: Vec<i64> = if thorough { vec![-600, -300, -1, 0, 1, 300, 600] } else { vec![-600, -300, 0, 300, 600] };
+    let pairs: Vec<(i64, i64)> = dom.iter().flat_map(|&a| dom.iter().map(move |&b| (a, b))).collect();
+    let ees: BTreeMap<(i64, i64), Vec<u8>> = pairs.par_iter().map(|&(nb, na)| ((nb, na), ee_cert(s, &EeSpec { serial: EE_SERIAL.to_vec(), nb: T0 + nb, na: T0 + na, subject_key: K_EE, sign_key: K_PEER, ski: None, aki: Some(s.key(K_PEER).ski.to_vec()), basic: Basic::Absent, key_usage_ext: false, issuer: 0, subject: 0 }))).collect();
+    let crls: BTreeMap<(i64, i64), Vec<u8>> = pairs.par_iter().map(|&(th, nx)| ((th, nx), crl(s, &CrlSpec { this: T0 + th, next: T0 + nx, sign_key: K_PEER, revoked: Some(vec![]), aki: Some(s.key(K_PEER).ski.to_vec()), number: Some(9), unknown_ext: false, ext_block: true, ign: CrlIgn::DEFAULT, ee_serial: EE_SERIAL.to_vec() }))).collect();
+    let signed: Vec<(i64, bool, Plan, Presigned)> = dom.iter().flat_map(|&st| [false, true].map(|bst| (st, bst))).map(|(st, bst)| {
+        let mut p = Plan::base(); p.st_secs = T0 + st; if bst { p.extras = vec![Extra::Bst]; p.bst_secs = T0 + st }
+        let ps = presign(fx, &p);
+        (st, bst, p, ps)
+    }).collect();
+    let jobs: Vec<((i64, i64), (i64, i64))> = pairs.iter().flat_map(|&e| pairs.iter().map(move |&c| (e, c))).collect();
+    let oc: Mutex<BTreeMap<&'static str, u64>> = Mutex::new(BTreeMap::new());
+    let nt = Mutex::new(0u64);
+    jobs.par_iter().for_each(|&((nb, na), (th, nx))| {
+        let mut local: BTreeMap<&'static str, u64> = BTreeMap::new();
+        let mut n = 0u64;
+        for (st, bst, p, ps) in &signed {
+            let bytes = wrap(fx, p, ps, false, &ees[&(nb, na)], &crls[&(th, nx)]);
+            for &t in &dom { for via in [Via::Strict, Via::Relaxed] {
+                let v = run(&bytes, &fx.peer, T0 + t, via);
+                *local.entry(v.class()).or_insert(0) += 1;
+                let want = nb <= t && t <= na && th <= t && t <= nx;
+                if *st < nb || *st > na || (nb, na) != (th, nx) { n += 1 }
+                expect(ctx, "C10.interactions.time.accept", "C10.interactions.time.reject", want, &v, || format!("foreign order=ct,md,st EE window=[T0{nb:+}s,T0{na:+}s] CRL window=[T0{th:+}s,T0{nx:+}s] signing-time=T0{st:+}s binary-signing-time={} via={via:?} when=T0{t:+}s", if *bst { "same" } else { "absent" }));
+            }}
+        }
+        sp.evals((signed.len() * dom.len() * 2) as u64);
+        *nt.lock().unwrap() += n;
+        let mut g = oc.lock().unwrap(); for (k, v) in local { *g.entry(k).or_insert(0) += v }
+    });
+    sp.merge_outcomes(&oc.lock().unwrap());
+    sp.nontrivial(*nt.lock().unwrap());
+    sp.set("domain", serde_json::json!(dom.iter().map(|d| format!("T0{d:+}s")).collect::<Vec<_>>()));
+    sp.sample_str(|| "EE window=[T0-300s,T0+300s] CRL window=[T0-600s,T0+600s] signing-time=T0+600s when=T0+300s -> validated (the signing time has no say)".to_string());
+    sp.done(true, &format!("{0}^2 EE windows x {0}^2 CRL windows x {0} signing times x 2 x {0} instants x 2 decoders", dom.len()));
+}
+
 //------------ main -------------------------------------------------------------------------------
 
 fn main() {
+    if std::env::args().any(|a| a == ENV_CHILD_ARG) { env_child() }
     let ctx = Ctx::new("C10", "exploration");
     ctx.assume("aws-lc RSA PKCS#1 v1.5 / SHA-256 / SHA-1 are correct (used by both the library and the independent signer)");
     ctx.assume("keys are the 8 fixed pool keys; the library's one-off key is pool key 7");
@@ -883,7 +1600,8 @@ fn main() {
         for (nm, via, bytes, n, orig, els) in &made {
             sizes.push(format!("{nm}: {n}B"));
             let ((nb, na), (tu, nu)) = embedded_windows(bytes);
-            if (nb, na) != (tu, nu) || na - nb != 600 {
+            // the two bounds come from two clock reads: 601 s when a second boundary falls between them
+            if (nb, na) != (tu, nu) || !(600..=601).contains(&(na - nb)) {
                 fail("C10.created.window", nm.clone(), format!("EE window [{nb},{na}] (relative: {} s), CRL window [{tu},{nu}]", na - nb));
             }
             for (ti, (t, ns)) in window_instants(nb, na).into_iter().enumerate() {
@@ -1758,6 +2476,13 @@ fn main() {
         }
         sp.done(true, &format!("all single-bit flips of {} messages x 2 decoders", objs.len()));
     }
+
+    //--- (d) round 8: the signer as a participant, predecessors on the same thread, environment, time interactions
+    let subj = subjects(&fx);
+    space_signer_sequences(&ctx, &fx);
+    space_history_predecessors(&ctx, &fx, &subj);
+    space_environment(&ctx, &fx, &subj);
+    space_time_interactions(&ctx, &fx);
 
     flush_fails(&ctx);
     ctx.finish();
